@@ -6,7 +6,7 @@ import (
 	"errors"
 	"fmt"
 	"io"
-	"sort"
+	"runtime/debug"
 	"strings"
 	"sync/atomic"
 	"time"
@@ -249,6 +249,54 @@ func c14Do(ctx context.Context, b objstore.Bucket, op c14Op) (a answer) {
 	panic("unknown op " + op.Kind)
 }
 
+type panicInfo struct {
+	val      any
+	stack    string
+	fn       string
+	inThanos bool
+}
+
+// c14Guarded runs one call and reports a panic raised under it; inThanos tells whether the innermost
+// non-runtime frame belongs to thanos (or its dependencies) rather than to the harness.
+func c14Guarded(ctx context.Context, b objstore.Bucket, op c14Op) (a answer, p *panicInfo) {
+	defer func() {
+		if r := recover(); r != nil {
+			p = &panicInfo{val: r, stack: string(debug.Stack())}
+			lines := strings.Split(p.stack, "\n")
+			seenPanic := false
+			for _, l := range lines {
+				if l == "" || l[0] == '\t' || strings.HasPrefix(l, "goroutine ") {
+					continue
+				}
+				if strings.HasPrefix(l, "panic(") {
+					seenPanic = true
+					continue
+				}
+				if !seenPanic || strings.HasPrefix(l, "runtime.") || strings.HasPrefix(l, "runtime/") {
+					continue
+				}
+				if i := strings.LastIndex(l, "("); i > 0 {
+					l = l[:i]
+				}
+				p.inThanos = !strings.HasPrefix(l, "verif/harness")
+				if i := strings.LastIndex(l, "."); i >= 0 {
+					l = l[i+1:]
+				}
+				p.fn = l
+				break
+			}
+		}
+	}()
+	return c14Do(ctx, b, op), nil
+}
+
+func describeAnswer(op c14Op, a answer) string {
+	if a.Err {
+		return "error: " + a.ErrText
+	}
+	return describe(op, a)
+}
+
 func clip(b []byte) string {
 	if len(b) > 24 {
 		return fmt.Sprintf("%x…(%d bytes)", b[:24], len(b))
@@ -277,10 +325,15 @@ func c14Compare(op c14Op, got, want answer, faulted bool) (sig, detail string) {
 	switch op.Kind {
 	case "getrange", "get":
 		w := want.Bytes
-		if op.Partial && len(w) > len(got.Bytes) {
-			w = w[:len(got.Bytes)]
-			if len(got.Bytes) < 3 && len(got.Bytes) < len(want.Bytes) {
-				return op.Kind + ":truncated", fmt.Sprintf("got %s, want prefix of %s", clip(got.Bytes), clip(want.Bytes))
+		if op.Partial {
+			// the client stopped reading early: what it read must be a prefix, and at least the 3
+			// bytes it insisted on (or everything, for shorter objects)
+			need := min(3, len(w))
+			if len(got.Bytes) < need {
+				return op.Kind + ":truncated", fmt.Sprintf("got %s, want at least %d bytes of %s", clip(got.Bytes), need, clip(w))
+			}
+			if len(got.Bytes) < len(w) {
+				w = w[:len(got.Bytes)]
 			}
 		}
 		if !bytes.Equal(got.Bytes, w) {
@@ -412,7 +465,10 @@ func runC14(x *simkit.Exec) {
 		case 4:
 			return int64(size)
 		case 5:
-			return int64(size + 1 + x.Draw("off.beyond", 3*sub))
+			if x.Bool("off.farbeyond", 1, 8) {
+				return int64(size + 1 + x.Draw("off.beyond", 3*sub))
+			}
+			return int64(size + 1 + x.Draw("off.justbeyond", 2))
 		}
 		return int64(x.Draw("off.k", size/sub+2)*sub - 1)
 	}
@@ -435,7 +491,7 @@ func runC14(x *simkit.Exec) {
 		return []int64{-1, 0}[x.Draw("len.special", 2)]
 	}
 	for c := range scripts {
-		nops := x.Range("nops", 2, 8)
+		nops := x.Range("nops", 3, 10)
 		for i := 0; i < nops; i++ {
 			var op c14Op
 			name := c14Names[x.Draw("name", len(c14Names))]
@@ -443,7 +499,7 @@ func runC14(x *simkit.Exec) {
 				name = objs[x.Draw("name.obj", len(objs))].name
 			}
 			op.Name = name
-			switch x.Draw("opkind", 8) {
+			switch x.Draw("opkind", 10) {
 			case 0, 1, 2, 3:
 				op.Kind = "getrange"
 				op.Off = drawOff(sizeOf[name])
@@ -452,10 +508,10 @@ func runC14(x *simkit.Exec) {
 				}
 				op.Len = drawLen(sizeOf[name])
 				op.Chunk = []int{0, 1, 7, 64}[x.Draw("chunk", 4)]
-			case 4:
+			case 4, 8, 9:
 				op.Kind = "get"
 				op.Chunk = []int{0, 1, 7, 64}[x.Draw("chunk", 4)]
-				op.Partial = x.Bool("partial", 1, 5)
+				op.Partial = x.Bool("partial", 1, 3)
 			case 5:
 				op.Kind = "exists"
 			case 6:
@@ -518,13 +574,28 @@ func runC14(x *simkit.Exec) {
 						time.Sleep(op.Think)
 					}
 					before := spy.faults.Load()
-					got := c14Do(ctx, cb, op)
+					got, pan := c14Guarded(ctx, cb, op)
+					if pan != nil {
+						if !pan.inThanos {
+							panic(fmt.Sprintf("%v\n%s", pan.val, pan.stack)) // harness bug: reported as trouble by the kit
+						}
+						class := "in-range"
+						if op.Kind == "getrange" && op.Off > int64(sizeOf[op.Name]) {
+							class = "offset-past-end"
+						}
+						s.Violate("same-answer-as-underlying-bucket", fmt.Sprintf("%s:panic:%s:%s", op.Kind, pan.fn, class),
+							"client %s op #%d %s panicked inside thanos: %v (subrange=%d maxSubRequests=%d cache=%s object size=%d; the underlying bucket answers %s)\n%s",
+							actor, i, op, pan.val, cfg.Sub, cfg.MaxSub, ccfg, sizeOf[op.Name], describeAnswer(op, c14Do(ctx, bkt.Inner, op)), pan.stack)
+						return
+					}
 					faulted := spy.faults.Load() > before
 					if faulted {
 						totalFaults.Add(1)
 					}
 					// reference: the in-memory bucket itself, same call, no cache, no simulator
-					want := c14Do(ctx, bkt.Inner, op)
+					ref := op
+					ref.Partial, ref.Chunk = false, 0
+					want := c14Do(ctx, bkt.Inner, ref)
 					outcome := "ok"
 					if got.Err {
 						outcome = "err"
@@ -570,5 +641,4 @@ func runC14(x *simkit.Exec) {
 		x.ProbeN("c14.bucket_subrequests_spanning_several_subranges", merged)
 		x.Nontrivial = completed.Load() > 0 && st.Fetches > 0
 	})
-	_ = sort.Strings
 }
